@@ -10,7 +10,9 @@ import (
 
 	"golang.org/x/tools/go/callgraph"
 	"golang.org/x/tools/go/callgraph/cha"
+	"golang.org/x/tools/go/callgraph/vta"
 	"golang.org/x/tools/go/ssa"
+	"golang.org/x/tools/go/ssa/ssautil"
 )
 
 type ghostFrames struct {
@@ -23,7 +25,8 @@ var gframes ghostFrames
 func (p *Program) ghostMayModify(cs *ContractSet, ghost string, fn *ssa.Function) bool {
 	gframes.once.Do(func() {
 		gframes.mayReach = map[string]map[*ssa.Function]bool{}
-		cg := cha.CallGraph(p.Prog)
+		// CHA refined by variable-type analysis (still a sound over-approximation of calls)
+		cg := vta.CallGraph(ssautil.AllFunctions(p.Prog), cha.CallGraph(p.Prog))
 		// mutators per ghost
 		for g := range cs.Ghosts {
 			set := map[*ssa.Function]bool{}
